@@ -320,6 +320,17 @@ def restart_mode(chk, orch, quick):
                 a = dict(base, restart_history=hist)
                 orch.submit(0, "scenarios:reuse", a, tag=("r", ei, fi, phase))
                 jobs[("r", ei, fi, phase)] = a
+                if eo is None and phase == "after":
+                    # no earlier restart; instead ANOTHER restart from the same saved assignments runs in its own folder while
+                    # the run under test lies killed, and is killed there late in its model construction (ei = 3) or completes (4)
+                    for bi, bfault in ((3, {"kind": "kill", "label_rx": r":open:w:.*_<chr>\.transcript_models\.gtf$", "nth": -1,
+                                            "phase": "after"}), (4, None)):
+                        if quick and bi == 4 and fi != 1:
+                            continue
+                        h2 = dict(hist, between={"fault": bfault})
+                        a2 = dict(base, restart_history=h2)
+                        orch.submit(0, "scenarios:reuse", a2, tag=("r", bi, fi, phase))
+                        jobs[("r", bi, fi, phase)] = a2
     ctl = None
     got = {}
     for jid, tag, r in orch.results():
@@ -358,10 +369,10 @@ def restart_mode(chk, orch, quick):
         if sym is None:
             continue
         chk.violation("R2" if sym.startswith("exit0") else "R1",
-                      {"mode": "read_assignments", "earlier_restart": ["killed, without models", "killed, other counting", "none"][tag[1]],
+                      {"mode": "read_assignments", "earlier_restart": ["killed, without models", "killed, other counting", "none", "none; another restart from the same saves killed in its own folder meanwhile", "none; another restart from the same saves completed in its own folder meanwhile"][tag[1]],
                        "label": k.get("label"), "phase": tag[3], "symptom": sym},
                       "run started from saved assignments, killed %s [%s] and resumed (earlier restart from the same saves: %s): %s\n%s" % (
-                          tag[3], k.get("label"), ["killed, run without model construction", "killed, other counting options", "none"][tag[1]],
+                          tag[3], k.get("label"), ["killed, run without model construction", "killed, other counting options", "none", "none - but another restart from the same saves was killed in its own folder meanwhile", "none - but another restart from the same saves completed in its own folder meanwhile"][tag[1]],
                           sym, (s2.get("log_tail") or "")[-500:]),
                       {"engine": "pipeline", "oracle": "module:checks.c07", "kind": "restart", "control": dict(a, restart_history=None),
                        "args": a, "expected": {"symptom": sym}})
